@@ -400,6 +400,32 @@ fn check_entries(ch: &mut Choices, cx: &mut Ctx) -> R {
             ensure_eq!(g, w, "c20/tree/reroot-differs", "unit {} node #{} after {} earlier traversals", ui, i, rounds);
         }
         ensure_eq!(got.len(), want.len(), "c20/tree/reroot-count", "unit {}", ui);
+        // the root's children, listed while every child's subtree is entered and abandoned part-way, on the tree that
+        // has been used above vs listed without descending on a fresh tree
+        let list = |tree: &mut gimli::EntriesTree<Rdr>, descend: bool| -> Result<Vec<usize>, String> {
+            let root = tree.root().map_err(|e| format!("{:?}", e))?;
+            let mut it = root.children();
+            let mut out = Vec::new();
+            while let Some(c) = it.next().map_err(|e| format!("{:?}", e))? {
+                out.push(c.entry().offset().0);
+                if descend {
+                    let mut gi = c.children();
+                    if let Ok(Some(g)) = gi.next() {
+                        let mut ggi = g.children();
+                        let _ = ggi.next();
+                    }
+                }
+                if out.len() > 10_000 {
+                    break;
+                }
+            }
+            Ok(out)
+        };
+        if let Ok(mut fresh) = unit.entries_tree(None) {
+            let plain = list(&mut fresh, false);
+            let used = list(&mut tree, true);
+            ensure_eq!(used, plain, "c20/tree/children-after-partial-descent", "unit {}", ui);
+        }
         if want.len() >= 3 {
             cx.nt();
         }
